@@ -25,6 +25,7 @@ RULE = (
     "calls: accepted => every argument is a member of its parameter annotation with the type variables replaced by "
     "the solution read off the inferred return type. Non-trivial = call with >=2 typed parameters where exactly "
     "one argument decides the verdict, or a generic call (distinct by callable+call text)."
+    ' Callable forms also include methods looked up on module-level (possibly falsy) literal instances and methods inherited through a subclass; constructor calls of generic classes as arguments are judged at type level (their type arguments are not statically known).'
 )
 ASSUMPTIONS = [
     "membership model pv/member.py; a call with an argument whose membership is Unknown is skipped",
